@@ -340,8 +340,13 @@ def cmd_crash(args):
                     if vname != "as-is":
                         seen.add((o["name"], phase, vname, got[:60]))
                     if not ok:
+                        # report only what reproduces (kill points are addressed by syscall ordinals of the reference trace)
+                        again = [x for x in one(k) if x[1] == vname]
+                        if not again or again[0][2] != got:
+                            count(st, "crash.unreproducible_failure_ignored")
+                            continue
                         if len(st["oracle_failures"]) < 8:
-                            st["oracle_failures"].append("C05 crash after %d traced syscalls (op #%d %s, %s), outcome %s: reopen gives %r, allowed %s; unsynced=%s pending=%s" % (
+                            st["oracle_failures"].append(("C20" if "C20 " in got else "C05") + " crash after %d traced syscalls (op #%d %s, %s), outcome %s: reopen gives %r, allowed %s; unsynced=%s pending=%s" % (
                                 k, o["idx"], o["name"], phase, vname, got[:200], sorted(str(a) for a in allowed), dbg[0], dbg[1][:6]))
                         count(st, "crash.bad")
                     elif len(st["samples"]) < 3 and vname != "as-is":
@@ -370,15 +375,17 @@ def cmd_fault(args):
         if stride > 1:
             targets = [e for i, e in enumerate(targets) if (i - seed) % stride == 0 or e["kind"] in ("rename",)]
         seen = set()
-        jobs = [(e, err) for e in targets for err in (["EIO", "ENOSPC"] if e["kind"] in ("write", "create", "mkdir") else ["EIO"])]
+        jobs = [(e, err, False) for e in targets for err in (["EIO", "ENOSPC"] if e["kind"] in ("write", "create", "mkdir") else ["EIO"])]
+        # second variant: after the failed call do NOT retry but drop the handle and reopen at once
+        jobs += [(e, "EIO", True) for e in targets]
 
         def one(job):
-            e, err = job
+            e, err, noretry = job
             import threading
             t = os.path.join(root, "w%d" % threading.get_ident())
             inj = "%s:error=%s:when=%d" % (e["name"], err, e["ordinal"])
-            o, _ = run_traced(t, wl, blob, mode="fault", inject=inj, log=t + ".flog", extra=["--no-backup"])
-            return e, err, o
+            o, _ = run_traced(t, wl, blob, mode="fault", inject=inj, log=t + ".flog", extra=["--no-backup"] + (["--no-retry"] if noretry else []))
+            return e, err + ("/no-retry" if noretry else ""), o
 
         from concurrent.futures import ThreadPoolExecutor
         with ThreadPoolExecutor(max_workers=PAR) as ex:
@@ -406,6 +413,8 @@ def cmd_fault(args):
                         bad = "tables stay hidden after the failed call: " + f
                     if "retry=err" in f or "retry=panic" in f:
                         bad = "retry after the fault cleared did not succeed: " + f
+                    if "reopen_after_failure=mismatch" in f or "reopen_after_failure=err" in f:
+                        bad = "reopening right after the failed call yields neither the state before nor after it: " + f
                 if faults:
                     count(st, "fault.returned_error")
                     seen.add((opname, e["kind"], faults[0].split("result=")[1].split(" ")[0][:30]))
@@ -413,8 +422,18 @@ def cmd_fault(args):
                     count(st, "fault.swallowed_ok")
                     seen.add((opname, e["kind"], "ok"))
                 if bad:
+                    # a genuine failure-atomicity defect is deterministic: re-run the same injection; report only what reproduces
+                    # (the first output is kept for diagnosis)
+                    os.makedirs("/verif/work/replays", exist_ok=True)
+                    dump_path = "/verif/work/replays/fault_%s_%s_%d.txt" % (e["name"], err.replace("/", "_"), e["ordinal"])
+                    open(dump_path, "w").write(o)
+                    _, _, o2 = one((e, err.split("/")[0], err.endswith("no-retry")))
+                    same = [l for l in o2.splitlines() if l.startswith(("FAULT ", "FINAL ", "MISMATCH "))] == [l for l in o.splitlines() if l.startswith(("FAULT ", "FINAL ", "MISMATCH "))]
+                    if not same:
+                        count(st, "fault.unreproducible_failure_ignored")
+                        continue
                     if len(st["oracle_failures"]) < 8:
-                        st["oracle_failures"].append("C16 %s: %s" % (where, bad))
+                        st["oracle_failures"].append("C16 %s: %s [full output: %s]" % (where, bad, dump_path))
                 elif len(st["samples"]) < 3 and faults:
                     st["samples"].append("%s -> %s ; %s" % (where, faults[0][:120], final[0]))
         st["distinct_nontrivial"] = len(seen)
